@@ -128,6 +128,10 @@ func (s MsgServer) AddDelegate(c context.Context, msg *types.MsgAddDelegate) (*t
 
 	delegateCoin := types.NewDelegateAmount(msg.Amount.Amount.Sub(slashAmount.Amount))
 
+	// an addition that alone exceeds the maximum is refused before it is added (the sum could overflow sdkmath.Int)
+	if delegateCoin.Amount.GT(threshold.Amount.Mul(sdkmath.NewInt(s.GetOracleDelegateMultiple(ctx)))) {
+		return nil, types.ErrDelegateAmountAboveMaximum
+	}
 	oracle.DelegateAmount = oracle.DelegateAmount.Add(delegateCoin.Amount)
 	if oracle.DelegateAmount.Sub(threshold.Amount).IsNegative() {
 		return nil, types.ErrDelegateAmountBelowMinimum
